@@ -604,6 +604,17 @@ Qed.
 Lemma settle'_t n0 n ds : trans md n0 n -> trans md n0 (fst (settle' n ds)).
 Proof. intros H. unfold settle'. dtriple (settle n ds). cbn [fst]. now apply settle_t. Qed.
 
+Lemma settle_app_t n0 n ds : trans md n0 n -> trans md n0 (fst (fst (settle_app n ds))).
+Proof.
+  intros H. unfold settle_app.
+  match goal with |- context [io_iteration ?N ?D] => dtriple (io_iteration N D) end.
+  match goal with |- context [flush ?N] => dpair (flush N) end. cbn [fst].
+  apply flush_t. now apply io_iteration_t.
+Qed.
+
+Lemma settle_app'_t n0 n ds : trans md n0 n -> trans md n0 (fst (settle_app' n ds)).
+Proof. intros H. unfold settle_app'. dtriple (settle_app n ds). cbn [fst]. now apply settle_app_t. Qed.
+
 End Prims.
 
 (* ---- the capabilities-exchange handlers: the only writers of identities ---- *)
@@ -1099,8 +1110,8 @@ Proof.
     destruct (List.find _ (n_conns _)) as [c|]; cbn [fst]; auto.
     destruct (is_ready_state (c_state c)); cbn [fst]; auto.
     match goal with |- context [send_message ?N ?C ?M] => dpair (send_message N C M) end.
-    match goal with |- context [settle' ?N ?D] => dpair (settle' N D) end. cbn [fst].
-    apply settle'_t. now apply send_message_t.
+    match goal with |- context [settle_app' ?N ?D] => dpair (settle_app' N D) end. cbn [fst].
+    apply settle_app'_t. now apply send_message_t.
   - (* EAppRequest *)
     match goal with |- context [let '(n0, e2e) := ?X in _] => assert (H1 : trans md n0 (fst X)); [|destruct X as [n1 e2e]; cbn [fst] in H1] end.
     { destruct (o_e2e m =? 0)%Z; cbn [fst]; auto. eapply t_a; [apply A_misc; lia|exact H]. }
@@ -1111,8 +1122,8 @@ Proof.
     { destruct (o_hbh m =? 0)%Z; cbn [fst]; auto. t_soft. exact H1. }
     cbv zeta.
     match goal with |- context [send_message ?N ?C ?M] => dpair (send_message N C M) end.
-    match goal with |- context [settle' ?N ?D] => dpair (settle' N D) end. cbn [fst].
-    apply settle'_t. apply send_message_t. eapply t_a; [apply A_apps|].
+    match goal with |- context [settle_app' ?N ?D] => dpair (settle_app' N D) end. cbn [fst].
+    apply settle_app'_t. apply send_message_t. eapply t_a; [apply A_apps|].
     eapply t_a; [apply A_wait|exact H2]. apply incl_refl. now left.
   - (* EStop *)
     cbv zeta. assert (H1 : trans md n0 (set_misc n true (n_next_cid n) (n_e2e n))) by (eapply t_a; [apply A_misc; lia|exact H]).
